@@ -434,6 +434,10 @@ func (w *c02QWalk) applyLoop(l *Loop, pred *ssa.BasicBlock, st *c02QState) {
 		if okZ {
 			st.known, st.zeroed, st.why = true, true, ""
 			st.S = linConst(0)
+		} else if v, isOne := w.allToOneLoop(l, ph, d, covered, list, stores); isOne {
+			// the zeroing loop and the assignment to the one recipient written as a single loop
+			st.known, st.zeroed, st.why = true, false, ""
+			st.S = w.lin(st, v, 0)
 		} else {
 			st.unknown("a loop changes quotas in a way that is not understood [" + pos + "]")
 		}
